@@ -17,6 +17,9 @@ enum Row {
     AfterSameOff, // same label sent just before, re-use disabled
     /// another label was sent, then an encap_ext / encap call with THIS label failed (nothing on the wire)
     AfterOtherThenFailed,
+    /// first fragment of a PDU with another label, then a complete packet with THIS label, then the
+    /// end fragment of the other PDU: the case packet is then expected to use re-use
+    AfterInterleavedTrain,
 }
 
 struct Case<'a> {
@@ -55,6 +58,32 @@ fn run_case(rep: &Report, acc: &mut Acc, c: &Case) {
                 steps.push("disable_re_use_label".into());
             }
         }
+        Row::AfterInterleavedTrain => {
+            let other = if c.l == L6B { L6A } else { L6B };
+            let big = [0x55u8; 12];
+            let mut b1 = [0u8; 16];
+            let o1 = do_encap(&mut enc, &big, 9, 0x0800, other, &mut b1);
+            let mut fed = vec![];
+            if let EncOut::Fragmented(n1, ctx) = o1 {
+                fed.push(b1[..n1].to_vec());
+                let mut b2 = [0u8; 32];
+                if let Some(n2) = do_encap(&mut enc, &[0x42], 0, 0x0800, c.l, &mut b2).len() {
+                    fed.push(b2[..n2].to_vec());
+                }
+                let mut b3 = [0u8; 32];
+                if let EncOut::Completed(n3) = do_encap_frag(&enc, &big, ctx, &mut b3) {
+                    fed.push(b3[..n3].to_vec());
+                }
+            }
+            // the receiver of this row needs room for the 12-byte PDU as well
+            rx = RxS::new(2, c.storage.max(12), &[c.storage.max(12), c.storage.max(12), c.storage.max(12)]).build(DefaultCrc {}, TableMgr::none());
+            for f in &fed {
+                if let DecapOut::Completed { buf, .. } = do_decap(&mut rx, f) {
+                    let _ = rx.provision_storage(buf.into_boxed_slice());
+                }
+            }
+            steps.push(format!("first fragment(label {}), complete(label {}), end fragment: {} packets fed", other.short(), c.l.short(), fed.len()));
+        }
         Row::AfterOtherThenFailed => {
             let other = if c.l == L6B { L6A } else { L6B };
             let mut scratch = [0u8; 32];
@@ -78,7 +107,7 @@ fn run_case(rep: &Report, acc: &mut Acc, c: &Case) {
     let lw_full = c.l.wire_len();
     let fits_full = 2 + lw_full + c.p <= GSE_LEN_MAX && c.b >= 4 + lw_full + c.p;
     let fits_empty = 2 + c.p <= GSE_LEN_MAX && c.b >= 4 + c.p;
-    let may_sub = c.row == Row::AfterSame && c.l.is_addr();
+    let may_sub = (c.row == Row::AfterSame || c.row == Row::AfterInterleavedTrain) && c.l.is_addr();
     let rank = (c.p * 100_000 + c.b) as u64;
     let wit = || {
         json!({"prefix": steps, "call":"encap","pdu_len":c.p,"content":c.content_desc,"frag_id":0x33,"pt":c.pt,"label":c.l.short(),"buffer_len":c.b,"row":format!("{:?}",c.row),"storage":c.storage,"result":format!("{:?}",out)})
@@ -154,7 +183,7 @@ fn run_case(rep: &Report, acc: &mut Acc, c: &Case) {
 
 pub fn run(tier: Tier) -> i32 {
     let rep = Report::new("C01", tier);
-    rep.set_rule("lattice: label kind x row (re-use on/off, after the same label with re-use on/off, after another label followed by failed encap_ext/encap calls with this label) x PDU length (every length 0..=4100) x buffer length relative to the exact packet size and beyond 4097 x protocol type x storage size >= PDU x content pattern, all contents for lengths 0..=2 (0..=1 in quick); each cell = real encap + real decap of exactly the reported bytes; distinct = (status, label kind, row, regime)");
+    rep.set_rule("lattice: label kind x row (re-use on/off, after the same label with re-use on/off, after another label followed by failed encap_ext/encap calls with this label, after a complete packet with this label interleaved inside another PDU's fragment train) x PDU length (every length 0..=4100) x buffer length relative to the exact packet size and beyond 4097 x protocol type x storage size >= PDU x content pattern, all contents for lengths 0..=2 (0..=1 in quick); each cell = real encap + real decap of exactly the reported bytes; distinct = (status, label kind, row, regime)");
     rep.assume("payload contents beyond 2 bytes are represented by four patterns (position tag, zeros, ones, second tag)");
     let labels = [L6A, L3A, Lbl::Bcast, L6B, L3B, L3Z];
     let ps: Vec<usize> = (0..=4100).collect();
@@ -166,7 +195,7 @@ pub fn run(tier: Tier) -> i32 {
             return;
         }
         let mut acc = Acc::default();
-        let rows: Vec<Row> = if l.is_addr() { vec![Row::Plain(true), Row::Plain(false), Row::AfterSame, Row::AfterSameOff, Row::AfterOtherThenFailed] } else { vec![Row::Plain(true), Row::Plain(false)] };
+        let rows: Vec<Row> = if l.is_addr() { vec![Row::Plain(true), Row::Plain(false), Row::AfterSame, Row::AfterSameOff, Row::AfterOtherThenFailed, Row::AfterInterleavedTrain] } else { vec![Row::Plain(true), Row::Plain(false)] };
         for (ri, &row) in rows.iter().enumerate() {
             for lw in [l.wire_len(), 0] {
                 let size = 4 + lw + p;
